@@ -696,6 +696,7 @@ pub fn dns_parts(c: &Value) -> Option<DnsParts> {
 pub fn child_main(_args: &[String]) {
     use std::io::{BufRead, Write};
     quiet_panics();
+    install_info_logger();
     let mut h = Handlers::new();
     let stdin = std::io::stdin();
     let stdout = std::io::stdout();
